@@ -10,6 +10,8 @@ Decided:
            with the standard meaning (u8 / 255, f16::from_bits().to_f32(), raw floats / bytes)
   SEEK     element seek derives from LOD vertex offset + stream offset + element offset + stride * vertex index;
            index seek from index_offsets[lod] + start_index * 2; raw stream seek from LOD offset + stream offset + z * stride
+  FRESH    every Vec placed in a Part / Shape / Lod literal is created inside each loop that encloses the literal (a
+           buffer hoisted out of the per-shape / per-mesh loop carries one item's data into the next)
 Not decided: decoded numeric values, shape/sub-mesh extraction semantics, string-table names.
 """
 from .. import dispatch as D
@@ -140,8 +142,70 @@ def tangent_decode(rb):
     return n, xyz_ok, w
 
 
+def fresh_rule(ctx):
+    """FRESH: what a parsed mesh part / shape / LOD carries was collected for that item alone: every Vec placed in a
+    `Part`, `Shape` or `Lod` literal is a buffer created inside each loop that encloses the literal (so it starts empty or
+    zeroed for every item), not one allocated further out and reused across iterations."""
+    from ..mir import op_place
+    from ..sym import Explorer
+
+    prog = ctx.prog
+    b = prog.body("model::MDL::from_existing")
+    if not b:
+        ctx.fail_closed("FRESH", "model::MDL::from_existing not found")
+        return
+    ix = index_of(b)
+    defs = b.defs()
+    loops = Explorer(b).loops()
+    CTOR = ("from_elem", "Vec::<T>::new", "Vec::<T>::with_capacity", "FromIterator<T>>::from_iter", "Iterator::collect", "::collect", "into_vec", "to_vec", "Default>::default")
+    VIEW = ("Clone>::clone", "::deref", "::to_owned", "mem::take")
+
+    def origin(op, depth=0):
+        """block of the call that created the buffer an operand holds (through moves, clones and borrows)"""
+        pl = op_place(op)
+        if pl is None or depth > 16:
+            return None
+        ds = [d for d in defs.get(pl["l"], []) if d[0] == "call" or not d[3]["lhs"].get("p")]
+        whole = [d for d in ds if d[0] == "call" or d[3].get("rv", {}).get("k") in ("use", "ref", "cast", "agg")]
+        if len(whole) != 1:
+            # a buffer assigned in several places: the creating call that dominates all others
+            calls_ = [d for d in ds if d[0] == "call" and ix.callee(d[3]).endswith(CTOR)]
+            return calls_[0][1] if len(calls_) == 1 else None
+        kind, bb, _i, x = whole[0]
+        if kind == "call":
+            c = ix.callee(x)
+            if c.endswith(VIEW) and x["args"]:
+                return origin(x["args"][0], depth + 1)
+            return bb
+        rv = x["rv"]
+        if rv["k"] in ("use", "cast"):
+            return origin(rv["a"], depth + 1) if op_place(rv["a"]) else bb
+        if rv["k"] == "ref":
+            return origin({"c": {"l": rv["p"]["l"], "p": []}}, depth + 1)
+        return bb
+
+    n = 0
+    for bi, _si, st in b.stmts():
+        rv = st.get("rv") or {}
+        if rv.get("k") != "agg" or rv.get("adt") not in ("model::Part", "model::Shape", "model::Lod"):
+            continue
+        enclosing = [h for h, (blocks, _a) in loops.items() if bi in blocks]
+        for fld, op in zip(rv.get("fields", []), rv["ops"]):
+            pl = op_place(op)
+            if pl is None or not b.locals[pl["l"]]["ty"].startswith("std::vec::Vec<"):
+                continue
+            ob = origin(op)
+            missing = [h for h in enclosing if ob is None or ob not in loops[h][0]]
+            n += 1
+            ctx.ob("FRESH", f"{rv['adt'].split('::')[-1]}.{fld}", ob is not None and not missing,
+                   f"{rv['adt'].split('::')[-1]}.{fld}: the vector is created " + ("at an unrecognised place" if ob is None else f"in bb{ob}") + f"; the literal sits in {len(enclosing)} nested loop(s)" + (f", {len(missing)} of which do not contain the creation (the buffer survives from one item to the next)" if missing else ", all of which contain it"), b.file, b.line, sample=(fld == "morphed_vertices"))
+    ctx.floor("FRESH", "vector fields of Part / Shape / Lod literals", n, 6)
+
+
 def run(ctx):
     prog = ctx.prog
+    ctx.decided("buffers placed in Part / Shape / Lod are created per item, inside every enclosing loop (FRESH)")
+    fresh_rule(ctx)
     wm = model(ctx)
     ctx.decided("model header/record layouts, ModelData read order, VertexType/VertexUsage codes, declaration constants, version gates")
     ctx.decided("(usage, type) -> typed reader and Vertex field for the 17 supported pairs; uv0/uv1 component ranges")
